@@ -35,8 +35,10 @@ def _cases(draw):
         for i in idx:
             m[i] = zero
         mats.append(m)
-    a1 = draw(st.floats(min_value=1e-6, max_value=1 - 1e-6))
-    a2 = draw(st.floats(min_value=1e-6, max_value=1 - 1e-6))
+    al = st.one_of(st.floats(min_value=1e-6, max_value=1 - 1e-6), st.floats(min_value=1e-6, max_value=1 - 1e-6),
+                   st.sampled_from([1e-9, 1e-12, 1e-13, 1e-15, 1e-16, 1e-18, 1e-40, 1e-300, 1 - 1e-12]))
+    a1 = draw(al)
+    a2 = draw(al)
     return dict(lead=list(lead), dtype=dtype, mats=mats, alpha=sorted([a1, a2]))
 
 
@@ -107,7 +109,8 @@ def check(case):
                 "alg:alias", al)
         require(np.array_equal(flat(getattr(cmo, al)(alpha=a1), (2,)), cis[k][0], equal_nan=True),
                 "alg:alias", al)
-    z1, z2 = norm_ppf(1 - a1 / 2), norm_ppf(1 - a2 / 2)
+    # upper alpha/2 quantile through the lower tail (1 - alpha/2 would round for tiny alpha)
+    z1, z2 = -norm_ppf(a1 / 2), -norm_ppf(a2 / 2)
 
     zero_den = nonzero_den = False
     for i, (tp, fn, fp, tn) in enumerate(mats):
@@ -158,12 +161,16 @@ def check(case):
             # nesting: a1 < a2, so the a2 interval lies inside the a1 interval
             if not math.isnan(p):
                 w, n_ = cis[k][0][i], cis[k][1][i]
-                eps = 1e-12
+                eps = 1e-12 + 1e-9 * abs(w[1] - w[0])
                 require(w[0] <= n_[0] + eps and n_[1] <= w[1] + eps, "ci:nesting",
                         f"{k} {ctx}: alpha={a1!r} {w.tolist()} alpha={a2!r} {n_.tolist()}")
                 # mirroring
                 mi = cis[mirror][0][i]
-                require(abs(w[0] - (1 - mi[1])) <= 1e-12 and abs(w[1] - (1 - mi[0])) <= 1e-12,
+                # the complementary rate is a rounded 1-p: for p within 1e-k of 0 or 1 the product
+                # p(1-p), and with it the width, is only accurate to about 1e-(16-k) relative
+                q = max(min(p, 1 - p), 1e-300)
+                mt = 1e-12 + abs(w[1] - w[0]) * (1e-9 + 4e-16 / q)
+                require(abs(w[0] - (1 - mi[1])) <= mt and abs(w[1] - (1 - mi[0])) <= mt,
                         "ci:mirror", f"{k} vs {mirror} {ctx}: {w.tolist()} {mi.tolist()}")
     require(np.array_equal(M, M0), "alg:mutated-input", "")
     labels = [f"dtype:{case['dtype']}", f"rank:{len(lead)}"]
